@@ -224,30 +224,73 @@ def atomReplay (kind : String) (prog : List (List String)) (trace : List Item) :
 
 /-! ## IntCounterVec (C10): critical sections of the children lock -/
 
+/-- **the sequential specification** of a metric vector: label value ↦ child id, child id ↦ value -/
+structure VSpec where
+  map : List (String × Nat) := []      -- key ↦ child id
+  vals : List UInt64 := []             -- child id ↦ value (children are never destroyed: handles stay usable)
+deriving Repr
+
+inductive VOp
+  | getOrCreate (k : String) | remove (k : String) | reset | keys | inc (c : Nat) | read (c : Nat)
+deriving Repr
+
+inductive VRes
+  | child (c : Nat) | ok | err | unit | keys (l : List (String × Nat)) | val (v : UInt64)
+deriving Repr, BEq, DecidableEq
+
+def VSpec.lookup (s : VSpec) (k : String) : Option Nat := (s.map.find? (·.1 == k)).map (·.2)
+
+/-- what an operation does when it runs alone -/
+def VSpec.apply (s : VSpec) : VOp → VSpec × VRes
+  | .getOrCreate k =>
+    match s.lookup k with
+    | some c => (s, .child c)
+    | none => ({ map := s.map ++ [(k, s.vals.length)], vals := s.vals ++ [0] }, .child s.vals.length)
+  | .remove k =>
+    match s.lookup k with
+    | some _ => ({ s with map := s.map.filter (·.1 != k) }, .ok)
+    | none => (s, .err)
+  | .reset => ({ s with map := [] }, .unit)
+  | .keys => (s, .keys s.map)
+  | .inc c => ({ s with vals := s.vals.set c (s.vals.getD c 0 + 1) }, .unit)
+  | .read c => (s, .val (s.vals.getD c 0))
+
 inductive VPc
   | start (op : String)
   | rheld (op : String) (hit : Option Nat)      -- read lock held; lookup result
   | needW (op : String)                          -- read section missed, next: write lock
   | wheld (op : String) (res : String)           -- write lock held, effect done
   | incChild (child : Nat)                       -- `inc` through a returned handle
-  | collecting (todo : List Nat) (acc : List (String × Nat))
+  | collecting (keys : List (String × Nat)) (todo : List Nat) (acc : List (String × Nat))
 deriving Repr
+
+/-- one committed operation: the thread, the operation, what it returned -/
+structure VLin where
+  tid : Nat
+  op : VOp
+  res : VRes
 
 structure VSt where
   ths : List (Th VPc)
   lockW : Option Nat := none      -- writer
   lockR : List Nat := []          -- readers
-  children : List (String × Nat) := []        -- key ↦ child id
-  vals : List UInt64 := []                    -- child id ↦ value
+  spec : VSpec := {}              -- the vector's content: the machine only changes it through `vEff`
   binding : List (String × Nat) := []         -- location name ↦ child id
   handle : List (Nat × Nat) := []             -- thread ↦ child id of the handle it just got
+  lin : List VLin := []           -- ghost: the operations in the order in which they took effect
 
-def vLookup (s : VSt) (k : String) : Option Nat := (s.children.find? (·.1 == k)).map (·.2)
+/-- the only way the machine touches the vector's content: perform one operation of the sequential
+    specification and record it -/
+def vEff (s : VSt) (tid : Nat) (op : VOp) : VSt × VRes :=
+  let r := s.spec.apply op
+  ({ s with spec := r.1, lin := s.lin ++ [⟨tid, op, r.2⟩] }, r.2)
 
 def sortKeys (l : List String) : List String := l.foldl (fun acc a => insertBy (fun x y => decide (x ≤ y)) a acc) []
   where insertBy (le : String → String → Bool) (a : String) : List String → List String
     | [] => [a]
     | b :: r => if le b a then b :: insertBy le a r else a :: b :: r
+
+def setHandle (s : VSt) (tid c : Nat) : VSt := { s with handle := (tid, c) :: s.handle.filter (·.1 != tid) }
 
 def vStep (s : VSt) (e : Ev) : Except String VSt :=
   match s.ths[e.tid]? with
@@ -261,50 +304,57 @@ def vStep (s : VSt) (e : Ev) : Except String VSt :=
       match pc with
       | .start op =>
         let n := opName op
-        if n == "with" || n == "collect" then
-          if !(e.k == "R" && e.loc == "lk") then .error s!"{n}: expected read lock" else
-          if s.lockW.isSome then .error "read lock granted while a writer holds the lock" else
-          if n == "with" then .ok (setTh { s with lockR := e.tid :: s.lockR } { th with pc := some (.rheld op (vLookup s (key op))) })
-          else .ok (setTh { s with lockR := e.tid :: s.lockR } { th with pc := some (.collecting (s.children.map (·.2)) []) })
+        if n == "with" then
+          guard (e.k == "R" && e.loc == "lk") "with: expected read lock" <|
+          guard s.lockW.isNone "read lock granted while a writer holds the lock" <|
+          -- a hit takes effect here (the lookup under the read lock); a miss has no effect yet
+          match s.spec.lookup (key op) with
+          | some _ =>
+            let (s1, r) := vEff s e.tid (.getOrCreate (key op))
+            .ok (setTh { s1 with lockR := e.tid :: s1.lockR } { th with pc := some (.rheld op (match r with | .child c => some c | _ => none)) })
+          | none => .ok (setTh { s with lockR := e.tid :: s.lockR } { th with pc := some (.rheld op none) })
+        else if n == "collect" then
+          guard (e.k == "R" && e.loc == "lk") "collect: expected read lock" <|
+          guard s.lockW.isNone "read lock granted while a writer holds the lock" <|
+          let (s1, r) := vEff s e.tid .keys
+          let ks := match r with | .keys l => l | _ => []
+          .ok (setTh { s1 with lockR := e.tid :: s1.lockR } { th with pc := some (.collecting ks (ks.map (·.2)) []) })
         else if n == "rm" || n == "reset" then
-          if !(e.k == "X" && e.loc == "lk") then .error s!"{n}: expected write lock" else
-          if s.lockW.isSome || !s.lockR.isEmpty then .error "write lock granted while the lock is held" else
-          let s1 := { s with lockW := some e.tid }
-          if n == "reset" then .ok (setTh { s1 with children := [] } { th with pc := some (.wheld op "") })
-          else match vLookup s (key op) with
-            | some _ => .ok (setTh { s1 with children := s.children.filter (·.1 != key op) } { th with pc := some (.wheld op "ok") })
-            | none => .ok (setTh s1 { th with pc := some (.wheld op "err") })
+          guard (e.k == "X" && e.loc == "lk") s!"{n}: expected write lock" <|
+          guard (s.lockW.isNone && s.lockR.isEmpty) "write lock granted while the lock is held" <|
+          let (s1, r) := vEff s e.tid (if n == "reset" then .reset else .remove (key op))
+          let rv := match r with | .ok => "ok" | .err => "err" | _ => ""
+          .ok (setTh { s1 with lockW := some e.tid } { th with pc := some (.wheld op rv) })
         else .error s!"unknown op {op}"
       | .rheld op hit =>
-        if !(e.k == "r" && e.loc == "lk") then .error "with: expected read unlock" else
+        guard (e.k == "r" && e.loc == "lk") "with: expected read unlock" <|
         let s1 := { s with lockR := s.lockR.erase e.tid }
         match hit with
-        | some c => .ok (setTh { s1 with handle := (e.tid, c) :: s1.handle.filter (·.1 != e.tid) } { th with pc := none, retv := some "h" })
+        | some c => .ok (setTh (setHandle s1 e.tid c) { th with pc := none, retv := some "h" })
         | none => .ok (setTh s1 { th with pc := some (.needW op) })
       | .needW op =>
-        if !(e.k == "X" && e.loc == "lk") then .error "with: expected write lock after a miss" else
-        if s.lockW.isSome || !s.lockR.isEmpty then .error "write lock granted while the lock is held" else
-        -- re-check under the write lock, build and insert only if still absent
-        match vLookup s (key op) with
-        | some c => .ok (setTh { s with lockW := some e.tid, handle := (e.tid, c) :: s.handle.filter (·.1 != e.tid) } { th with pc := some (.wheld op "h") })
-        | none =>
-          let c := s.vals.length
-          .ok (setTh { s with lockW := some e.tid, children := s.children ++ [(key op, c)], vals := s.vals ++ [0],
-                              handle := (e.tid, c) :: s.handle.filter (·.1 != e.tid) } { th with pc := some (.wheld op "h") })
+        guard (e.k == "X" && e.loc == "lk") "with: expected write lock after a miss" <|
+        guard (s.lockW.isNone && s.lockR.isEmpty) "write lock granted while the lock is held" <|
+        -- get-or-create under the write lock: the key is looked up AGAIN; a child is built and inserted only if still absent
+        let (s1, r) := vEff s e.tid (.getOrCreate (key op))
+        match r with
+        | .child c => .ok (setTh (setHandle { s1 with lockW := some e.tid } e.tid c) { th with pc := some (.wheld op "h") })
+        | _ => .error "internal: get-or-create returned no child"
       | .wheld _ res =>
-        if !(e.k == "x" && e.loc == "lk") then .error "expected write unlock" else
+        guard (e.k == "x" && e.loc == "lk") "expected write unlock" <|
         .ok (setTh { s with lockW := none } { th with pc := none, retv := some res })
       | .incChild c =>
-        if !(e.k == "A" && ordGe e.ord "Relaxed" && e.a == 1) then .error "inc: expected fetch_add Relaxed 1" else
+        guard (e.k == "A" && ordGe e.ord "Relaxed" && e.a == 1) "inc: expected fetch_add Relaxed 1" <|
+        guard (e.res == s.spec.vals.getD c 0) "inc: wrong old value" <|
         match s.binding.find? (·.1 == e.loc) with
-        | some (_, c') => if c' != c then .error s!"inc on {e.loc}, which is child {c'}, but the handle is child {c}" else
-            if e.res != s.vals.getD c 0 then .error "inc: wrong old value" else
-            .ok (setTh { s with vals := s.vals.set c (s.vals.getD c 0 + 1) } { th with pc := none, retv := some "" })
+        | some (_, c') =>
+          guard (c' == c) s!"inc on {e.loc}, which is child {c'}, but the handle is child {c}" <|
+          .ok (setTh (vEff s e.tid (.inc c)).1 { th with pc := none, retv := some "" })
         | none =>
-          if s.binding.any (·.2 == c) then .error s!"child {c} already lives at another location than {e.loc}" else
-          if e.res != s.vals.getD c 0 then .error "inc: wrong old value" else
-          .ok (setTh { s with binding := (e.loc, c) :: s.binding, vals := s.vals.set c (s.vals.getD c 0 + 1) } { th with pc := none, retv := some "" })
-      | .collecting todo acc =>
+          guard (!s.binding.any (·.2 == c)) s!"child {c} already lives at another location than {e.loc}" <|
+          let s1 := (vEff s e.tid (.inc c)).1
+          .ok (setTh { s1 with binding := (e.loc, c) :: s1.binding } { th with pc := none, retv := some "" })
+      | .collecting ks todo acc =>
         if e.k == "L" then
           -- value read of one of the children that were in the map when the lock was taken (any order)
           let cand := match s.binding.find? (·.1 == e.loc) with
@@ -314,15 +364,16 @@ def vStep (s : VSt) (e : Ev) : Except String VSt :=
           match cand with
           | none => .error s!"collect reads {e.loc}, not a child that is in the map"
           | some c =>
-            if e.res != s.vals.getD c 0 then .error "collect: wrong child value" else
-            let s1 := if s.binding.any (·.1 == e.loc) then s else { s with binding := (e.loc, c) :: s.binding }
-            let k := ((s.children.find? (·.2 == c)).map (·.1)).getD "?"
-            .ok (setTh s1 { th with pc := some (.collecting (todo.erase c) ((k, e.res.toNat) :: acc)) })
-        else if e.k == "r" && e.loc == "lk" then
-          if !todo.isEmpty then .error "collect released the lock before reading every child" else
-          let ks := sortKeys (acc.map fun kv => kv.1 ++ "=" ++ toString kv.2)
-          .ok (setTh { s with lockR := s.lockR.erase e.tid } { th with pc := none, retv := some ("+".intercalate ks) })
-        else .error "collect: expected child load or read unlock"
+            let (s1, r) := vEff s e.tid (.read c)
+            guard (r == .val e.res) "collect: wrong child value" <|
+            let s2 := if s1.binding.any (·.1 == e.loc) then s1 else { s1 with binding := (e.loc, c) :: s1.binding }
+            let k := ((ks.find? (·.2 == c)).map (·.1)).getD "?"
+            .ok (setTh s2 { th with pc := some (.collecting ks (todo.erase c) ((k, e.res.toNat) :: acc)) })
+        else
+          guard (e.k == "r" && e.loc == "lk") "collect: expected child load or read unlock" <|
+          guard todo.isEmpty "collect released the lock before reading every child" <|
+          let strs := sortKeys (acc.map fun kv => kv.1 ++ "=" ++ toString kv.2)
+          .ok (setTh { s with lockR := s.lockR.erase e.tid } { th with pc := none, retv := some ("+".intercalate strs) })
 
 def vItem (s : VSt) : Item → Except String VSt
   | .ev e => vStep s e
@@ -367,7 +418,7 @@ def vecReplay (prog : List (List String)) (trace : List Item) : String :=
   | .error e => e
   | .ok s =>
     if allDone s.ths then
-      let ks := sortKeys (s.children.map (·.1))
+      let ks := sortKeys (s.spec.map.map (·.1))
       s!"ok keys={if ks.isEmpty then "-" else "+".intercalate ks}"
     else "incomplete"
 
